@@ -41,14 +41,18 @@ def check_case(root, spec, pps, excl, cfg, delivery, how, out, armed):
                 full = os.path.join(root, path)
                 cand = path + '/' if os.path.isdir(full) and not path.endswith('/') else path
                 return any(G.globmatch(cand, e, flags=(fl | G.DOTGLOB) & ~(G.NODIR | G.MARK | G.NOUNIQUE | G.SCANDOTDIR)) for e in etexts)
+            # in half of the cases an absolute pattern that matches nothing stands first: it adds nothing to the union and must
+            # not change what the patterns after it return
+            ctexts = ([root + '/zz_no_such_entry'] + texts) if sum(map(len, texts)) % 2 and how != 'pathlib' else list(texts)
+            case['abs_first'] = len(ctexts) != len(texts)
             if how == 'brace' and len(texts) > 1 and not any(c in t for t in texts for c in ',{}'):
-                call_pats = '{' + ','.join(texts) + '}'
+                call_pats = '{' + ','.join(ctexts) + '}'
                 cfl = fl | G.BRACE
             elif how == 'split' and len(texts) > 1 and not any('|' in t for t in texts):
-                call_pats = '|'.join(texts)
+                call_pats = '|'.join(ctexts)
                 cfl = fl | G.SPLIT
             else:
-                call_pats = list(texts)
+                call_pats = list(ctexts)
                 cfl = fl
             kw = {}
             if etexts:
